@@ -1,5 +1,5 @@
 #!/usr/bin/env python3
-"""Prints the markdown table of section 9 of DESIGN.md from /verif/seeded/*/meta.json."""
+"""Prints the markdown table of section 8.3 of DESIGN.md from /verif/seeded/*/meta.json."""
 import json, os
 rows = []
 for n in sorted(os.listdir("/verif/seeded")):
